@@ -659,7 +659,7 @@ def phase_e(rec, sched, quick):
     if cache is None:
         rec.count('E.cache_not_resettable')
     serial = [0]
-    cap = 100 if quick else 4000
+    cap = 100 if quick else 1200
     levels = (HDR_CEILING_LEVELS[:1] + HDR_CEILING_LEVELS[2:5] if quick else HDR_CEILING_LEVELS) if cache is not None else (0,)
     for li, level in enumerate(levels):
         for nthreads, maxp in ((2, 2), (3, 1)) if not quick else ((2, 2),):
@@ -754,7 +754,7 @@ def run(rec):
             accept = safe_serial(rec, build, reqs, wsgi_call, isolated=not flaky)
             if accept is None:
                 continue
-            cap = 500 if quick else 12000
+            cap = 500 if quick else 5000
             counter = [0]
 
             def once(tape, mine, nthreads=nthreads, maxp=maxp, flaky=flaky, build=build, reqs=reqs, accept=accept, si=si):
@@ -815,7 +815,7 @@ def run(rec):
                     key = ('A2', ri, tuple(c for _, c in tape.log))
                     rec.case(key)
                     rec.seen('schedules', key)
-            n_run, trunc = TS.explore_partitioned(once2, rec.shard, rec.nshards, 600 if quick else 6000)
+            n_run, trunc = TS.explore_partitioned(once2, rec.shard, rec.nshards, 600 if quick else 3000)
             if trunc:
                 rec.count('A.truncated')
             rec.count('A2.schedules_set_%d' % ri, n_run)
@@ -899,7 +899,7 @@ def run(rec):
         call = asgi_serial_call if asgi else wsgi_call
         variant = rec.shard % 4
         app = build_app(asgi, False, variant)
-        nlong = (120 if quick else 1500) // (2 if asgi else 1)
+        nlong = (120 if quick else 800) // (2 if asgi else 1)
         for k in range(nlong):
             r = gen_requests(lrng, 1, shared_accept=(k % 5 == 0))[0]
             got = call(app, r)
